@@ -155,6 +155,17 @@ def run_orient(sc, workdir):
         pars[szname + "_pd_nsigma"] = 3.0
     cutoff = rng.choice([0.0, 1e-5, 1e-3, 1e-2]) if sc.get("cutoff") else 0.0
     qx, qy = np.array(QX), np.array(QY)
+    if sc.get("onaxis"):
+        # the particle's axis lies in the detector plane and some detector points lie exactly along it (both
+        # directions): |q|^2 - qc^2 is then a rounding residue of either sign
+        theta = pars["theta"] = 90.0
+        phi = pars["phi"] = rng.choice([5.0, 33.0, 45.0, 70.0, 128.0, -17.0])
+        for nm in ("theta", "phi", "psi"):
+            for sfx in ("_pd", "_pd_n", "_pd_type", "_pd_nsigma"):
+                pars.pop(nm + sfx, None)
+        ax = np.array([cos(radians(phi)), sin(radians(phi))])
+        ts = np.array([0.03125, -0.03125, 0.0625, -0.09375, 0.046875, -0.0546875, 0.0703125, -0.015625])
+        qx, qy = np.concatenate([ts * ax[0], qx[:2]]), np.concatenate([ts * ax[1], qy[:2]])
     kernel = model.make_kernel([qx, qy])
     ev = {"tid": sc["tid"], "ev": "Orient", "model": info.id, "sym": sym, "raised": "", "cutoff": fstr(cutoff),
           "theta": fstr(theta), "phi": fstr(phi), "psi": fstr(psi), "qx": fvec(qx), "qy": fvec(qy), "pars": pars}
